@@ -370,7 +370,10 @@ def run():
     thr, raw, bias = hll_tables()
     if _write_if_changed(os.path.join(GEN, "HllTables.lean"), render_tables(thr, raw, bias)):
         changed.append("HllTables.lean")
-    return {"changed": changed, "fingerprints": fingerprints()}
+    import kernels
+    kch, kerr = kernels.run()
+    changed += kch
+    return {"changed": changed, "fingerprints": fingerprints(), "kernel_errors": kerr}
 
 
 if __name__ == "__main__":
@@ -379,4 +382,4 @@ if __name__ == "__main__":
     except TranslateError as e:
         print("TRANSLATE-ERROR", e)
         sys.exit(3)
-    print(json.dumps({"changed": r["changed"], "n_fingerprints": len(r["fingerprints"])}))
+    print(json.dumps({"changed": r["changed"], "n_fingerprints": len(r["fingerprints"]), "kernel_errors": r["kernel_errors"]}))
